@@ -176,6 +176,10 @@ def s1_futures(src, tasks_spec, max_requests, max_faults):
         pv = (0, 7)  # idempotent producers need v3+ (IncompatibleBrokerVersion otherwise)
     cfg["versions"] = {0: pv}
     cfg["finish"] = ["flush_stop", "stop"][src.choice("finish", 2)]
+    total = sum(len(x) for x in tasks_spec)
+    k = src.choice("stop_after_accepted", total + 1)
+    if k < total:
+        cfg["stop_after_accepted"] = k  # stop()/flush() issued mid-run, sender tasks still active
     res = prodsim.run_producer(src, cfg, tasks_spec, prodsim.RETRIABLE_MENU, max_requests, max_faults)
     c = res["cluster"]
     faults = res["plan"].log
@@ -188,6 +192,9 @@ def s1_futures(src, tasks_spec, max_requests, max_faults):
     if cfg["finish"] == "flush_stop":
         src.check(not res["pending_after_flush"], "flush() returned while an accepted record was unresolved", faults=faults, cfg=str(cfg))
     src.check(not res["pending_after_stop"], "stop() returned while an accepted record was unresolved", faults=faults, cfg=str(cfg))
+    src.check(not res.get("late_accepted"), "send() accepted a record after stop() had returned", cfg=str(cfg))
+    for s_ in accepted:
+        src.check(s_["fut"].done(), "a future returned by send() is never resolved", key=s_["key"], faults=faults, cfg=str(cfg))
     # bounded time: every fault costs at most a request timeout + backoff + a metadata round trip
     bound = 3.0 + 2.5 * max_faults
     src.check(res["stop_returned_at"] - res["started_at"] <= bound,
